@@ -148,6 +148,16 @@ def single_corruptions(streams, models, rng, truncation_stride=1):
             if kc:
                 cands.append(("unknown-value-in-known-category", kc))
             cands.append(("unknown-model", "~" + e.mcv[1:]))
+            # codes outside 7-bit ASCII that coincide with a catalogued code when the top bit is dropped, or that
+            # land on a catalogued neighbour when a 256-entry table is indexed as if it had 128 columns
+            c, v = ord(e.mcv[1]), ord(e.mcv[2])
+            if not (e.mcv[0] == "O" and e.mcv[1] in "BU"):
+                cands.append(("unknown-event-high-bit", e.mcv[0] + chr(c) + chr(v | 0x80)))
+                if c > 1:
+                    cands.append(("unknown-event-high-bit", e.mcv[0] + chr(c - 1) + chr(v | 0x80)))
+            cands.append(("unknown-event-high-bit", e.mcv[0] + chr(c | 0x80) + chr(v)))
+            cands.append(("unknown-event-high-bit", e.mcv[0] + chr(c | 0x80) + chr(v | 0x80)))
+            cands.append(("unknown-model", chr(ord(e.mcv[0]) | 0x80) + e.mcv[1:]))
             for why, mcv in cands:
                 if e.mcv[0] == "O" and e.mcv[1] in "BU" and why == "unknown-event" and False:
                     continue
@@ -174,7 +184,8 @@ def single_corruptions(streams, models, rng, truncation_stride=1):
         meta = s.meta
         jb = s.json_bytes()
         for key, alts in (("version", [2, 4, "3"]), ("ovni.part", [None]), ("ovni.tid", [0]), ("ovni.pid", [0]),
-                          ("ovni.loom", [None]), ("ovni.finished", [0]), ("ovni.require", [None])):
+                          ("ovni.loom", [None]), ("ovni.finished", [0]), ("ovni.require", [None]),
+                          ("ovni.lib.version", [None]), ("ovni.lib.commit", [None])):
             m2 = copy.deepcopy(meta)
             if set_path(m2, key, None, remove=True):
                 yield ("meta:removed", "stream %d: metadata key %s removed" % (si, key), si, None, json.dumps(m2).encode())
